@@ -172,6 +172,21 @@ CLAIMS = {
          "follow opcodes.h.",
     technique="TLA+ executable reference semantics (OrcOps) evaluated by TLC on traces of the emulator; TLC-checked "
               "sanity theorems of the reference"),
+ "C03": dict(
+    text="Footprint.tla defines, for a row of n elements and every opcode kind, the set of source elements a program "
+         "is entitled to read (plain: 0..n-1; loadoff, loadupdb, loadupib, ldresnear, ldreslin: the index map of the "
+         "opcode reference) and TLC enumerates every configuration up to MaxN with the hull of that set.  h_guard "
+         "maps each array exactly as large as the specification entitles, flush against a PROT_NONE page before or "
+         "after it, sources read-only, 2-D rows separated by canaried gaps, and runs avx, sse, mmx and emulation; "
+         "TLC validates every Access event (Trace_Footprint): the hull is the specification's, no fault, canaries "
+         "intact, destination equal to emulation on ordinary memory, index-map loads equal to the reference values.  "
+         "X86Loop (C01) shows the head/body/tail partition stays inside 0..n-1 at design level.",
+    design_ref="DESIGN.md section 6 C03",
+    note="Guards are page-granular and one-sided per run (both sides are run); reads inside the entitled hull but "
+         "outside the entitled set are not seen.  Known findings F17b (mmx loadupib) and F18 (ldres* with start "
+         "position >= 1.0 on sse/mmx) are listed in known_findings.jsonl.",
+    technique="TLA+ footprint specification enumerated by TLC into guarded-memory configurations run on the real "
+              "backends; TLC trace validation of the recorded accesses"),
  "C01": dict(
     text="Native code is judged against the reference semantics directly (so native = emulation follows and a shared "
          "error would still be caught).  (1) One-opcode programs for every integer opcode compiled for avx, sse and "
